@@ -3,6 +3,7 @@
 package main
 
 import (
+	"encoding/binary"
 	"bufio"
 	"fmt"
 	"log"
@@ -239,6 +240,10 @@ func (h *harness) genCase(r *rng, name, stream string, nops int) *Case {
 	c.Cfg.Frag = float32(f)
 	c.Cfg.SyncMode = r.chance(30)
 	c.Cfg.HashSeed = uint32(r.next())
+	if r.chance(4) {
+		// boundary seeds: 0 is a legal seed, not "unset"
+		c.Cfg.HashSeed = []uint32{0, 0, 1, 0xffffffff}[r.intn(4)]
+	}
 	c.Cfg.FSName = "sim"
 	if h.prop == "C06" {
 		// rollover and compaction under both sync modes
@@ -288,6 +293,11 @@ func (h *harness) genCase(r *rng, name, stream string, nops int) *Case {
 		// size limits: keys at and beyond 65535 bytes (incl. lengths that alias a stored key's length
 		// under uint16 truncation), values around sector / buffer boundaries
 		c.Cfg.MaxSeg = 1 << 20
+		if r.chance(35) {
+			// records that exceed the whole capacity of a segment
+			c.Cfg.MaxSeg = []uint32{1024, 4096, 66000}[r.intn(3)]
+			h.stat("gen.c16.smallseg")
+		}
 		c.Pool = nil
 		base := patternBytes(70000, 'q')
 		for _, n := range []int{0, 1, 2, 255, 256, 4095, 65534, 65535} {
@@ -364,6 +374,46 @@ func (h *harness) genCase(r *rng, name, stream string, nops int) *Case {
 		c.Ops = append(c.Ops, Op{Kind: "compact"}, Op{Kind: "crashreopen"}, Op{Kind: "items"})
 		return c
 	}
+	if (h.prop == "C01" || h.prop == "C11") && stream == "ops" && r.chance(30) {
+		// a chain of several buckets, one non-tail bucket of it emptied by deletes, then table growth
+		// driven by keys of OTHER chains until the split pointer passes it (holes in front of live slots)
+		h.stat("gen.emptiedbucket")
+		c.Cfg.MaxSeg = 65536
+		chain := keyPool(r, c.Cfg.HashSeed, 40+r.intn(70), 1)
+		low := murmur32(chain[0], c.Cfg.HashSeed) & 7
+		var spread [][]byte
+		for _, k := range keyPool(r, c.Cfg.HashSeed, 500, 0) {
+			if murmur32(k, c.Cfg.HashSeed)&7 != low || r.chance(5) {
+				spread = append(spread, k)
+			}
+		}
+		c.Pool = append(append([][]byte{}, chain...), spread...)
+		for i, k := range chain {
+			c.Ops = append(c.Ops, Op{Kind: "put", K: k, V: patternBytes(r.intn(4), byte(i))})
+		}
+		pre := 40 + r.intn(160)
+		if pre > len(spread) {
+			pre = len(spread)
+		}
+		for i, k := range spread {
+			if i == pre {
+				c.Ops = append(c.Ops, Op{Kind: "dump"}, Op{Kind: "emptybucket"})
+				if r.chance(25) {
+					c.Ops = append(c.Ops, Op{Kind: "emptybucket"})
+				}
+				c.Ops = append(c.Ops, Op{Kind: "dump"})
+			}
+			c.Ops = append(c.Ops, Op{Kind: "put", K: k, V: patternBytes(r.intn(3), 1)})
+			if i > pre && r.chance(8) {
+				c.Ops = append(c.Ops, Op{Kind: "get", K: chain[r.intn(len(chain))]})
+			}
+			if i > pre && r.chance(4) {
+				c.Ops = append(c.Ops, Op{Kind: "dump"})
+			}
+		}
+		c.Ops = append(c.Ops, Op{Kind: "items"}, Op{Kind: "dump"}, Op{Kind: "reopen"}, Op{Kind: "items"})
+		return c
+	}
 	if h.prop == "C02" && r.chance(50) {
 		// one long chain whose bucket is split (overflow buckets freed), then many short sessions that
 		// delete a key elsewhere and add one key to the chain: the key count stays the same while
@@ -401,8 +451,14 @@ func (h *harness) genCase(r *rng, name, stream string, nops int) *Case {
 		}
 		return c
 	}
-	// RecFits: every record fits an empty segment (model precondition, DESIGN 2.4)
+	// Most cases keep every record within an empty segment; some (since fix F13) also write records
+	// that exceed a whole segment: they seal the empty current segment and get a segment of their own.
 	room := int(c.Cfg.MaxSeg) - 512 - 10
+	oversize := c.Cfg.MaxSeg <= 4096 && r.chance(12)
+	if oversize {
+		room += 400
+		h.stat("gen.oversize")
+	}
 	var pool [][]byte
 	maxKey := 0
 	for _, k := range c.Pool {
@@ -435,6 +491,11 @@ func (h *harness) genCase(r *rng, name, stream string, nops int) *Case {
 			n = 100 + r.intn(500)
 		case 4:
 			n = r.intn(maxVal + 1)
+		}
+		if oversize && r.chance(6) {
+			// just beyond what an empty segment holds
+			n = room - 400 - len(k) + 1 + r.intn(300)
+			h.stat("gen.oversize.rec")
 		}
 		if n > maxVal {
 			n = maxVal
@@ -680,6 +741,62 @@ func (s *session) checkpoint(withDump bool) {
 	if withDump {
 		s.h.emit("%s", dumpLine(s.db))
 	}
+}
+
+// nonTailBucketKeys picks a bucket that has a successor in its chain (preferring chains the split
+// pointer has not passed at this level) and returns the pool keys stored in it.
+func (s *session) nonTailBucketKeys() [][]byte {
+	d, err := s.db.VerifDumpIndex()
+	if err != nil {
+		return nil
+	}
+	byHash := map[uint32][][]byte{}
+	for _, k := range s.c.Pool {
+		hv := s.db.VerifHash(k)
+		byHash[hv] = append(byHash[hv], k)
+	}
+	type cand struct {
+		data []byte
+		main bool
+		idx  int
+	}
+	var cands []cand
+	nextOf := func(b []byte) int64 { return int64(binary.LittleEndian.Uint64(b[496:504])) }
+	for i := 0; 512+(i+1)*512 <= len(d.Main); i++ {
+		b := d.Main[512+i*512 : 512+(i+1)*512]
+		for hops := 0; nextOf(b) != 0 && hops < 1000; hops++ {
+			cands = append(cands, cand{b, hops == 0, i})
+			off := nextOf(b)
+			if off+512 > int64(len(d.Overflow)) {
+				break
+			}
+			b = d.Overflow[off : off+512]
+		}
+	}
+	if len(cands) == 0 {
+		s.h.stat("emptybucket.none")
+		return nil
+	}
+	var pref []cand
+	for _, c := range cands {
+		if c.idx >= int(d.SplitBucketIdx) {
+			pref = append(pref, c)
+		}
+	}
+	if len(pref) > 0 && s.r.chance(80) {
+		cands = pref
+	}
+	c := cands[s.r.intn(len(cands))]
+	var keys [][]byte
+	for j := 0; j < 31; j++ {
+		sl := c.data[j*16 : j*16+16]
+		if binary.LittleEndian.Uint32(sl[12:16]) == 0 {
+			break
+		}
+		keys = append(keys, byHash[binary.LittleEndian.Uint32(sl[0:4])]...)
+	}
+	s.h.stat("emptybucket.done")
+	return keys
 }
 
 // recoverImage opens an image with the real code and reports what it contains.
@@ -1178,6 +1295,16 @@ func (h *harness) runCase(c *Case, stream string, r *rng) {
 			s.images("inflight")
 			if c.Cfg.SyncMode && err == nil {
 				h.emit("syncpoint")
+			}
+		case "emptybucket":
+			// adaptive: delete every key stored in one non-tail bucket of a multi-bucket chain
+			for _, k := range s.nonTailBucketKeys() {
+				err := s.db.Delete(append([]byte(nil), k...))
+				h.emit("del %s %s", hx(k), errStr(err))
+				s.images("inflight")
+				if c.Cfg.SyncMode && err == nil {
+					h.emit("syncpoint")
+				}
 			}
 		case "get":
 			v, err := s.db.Get(o.K)
